@@ -1274,6 +1274,39 @@ class Prov:
                 out.add(o)
         return out
 
+    def lift_closure_origins(self, cf, origins, hops=3):
+        """Origins computed inside closure cf, re-expressed in the function that hands the closure to a combinator:
+        captured variables become what was captured, the closure's parameter becomes the combinator's data argument
+        (`opt.map(|x| f(x))`: x is what opt holds)."""
+        out = set()
+        if cf.kind != "Closure" or hops <= 0:
+            return set(origins)
+        sites = []
+        for g in self.facts.fns.values():
+            if g.crate != cf.crate:
+                continue
+            for bi, blk in enumerate(g.blocks):
+                t = blk["term"]
+                if t["k"] != "call":
+                    continue
+                comb = combinator(t["callee"]) or combinator(t.get("decl", ""))
+                if comb is None or len(t["args"]) <= comb[1]:
+                    continue
+                cd = self._closure_def(g, t["args"][comb[1]])
+                if cd and cd[0] is cf:
+                    sites.append((g, t, comb, cd[1]))
+        for o in origins:
+            if o.kind == "upvar":
+                out |= self.resolve_upvars(cf, {o})
+            elif o.kind == "param" and o.key >= 2 and sites:
+                for g, t, comb, agg in sites:
+                    for o2 in self._rec(g, t["args"][comb[0]], o.path, 0, set()):
+                        lifted = Origin(o2.kind, o2.key, o2.path, o2.via + o.via + (("call", t["callee"], -1),))
+                        out |= self.lift_closure_origins(g, {lifted}, hops - 1) if g.kind == "Closure" else {lifted}
+            else:
+                out.add(o)
+        return out
+
     def _is_closure_arg(self, fn, op):
         return self._closure_def(fn, op) is not None
 
